@@ -18,7 +18,7 @@ def DelayPassed (cl : Client) (now : UInt64) (h : Height) : Prop :=
   match cl.kind with
   | .tm => ∃ pt, cl.processed.get h = some pt ∧ pt + cl.delayTime ≤ now
   | .tss => True
-  | _ => cl.delayBlock ≤ cl.latest.h - h.h
+  | _ => ¬ (cl.latest.h < h.h) ∧ cl.delayBlock ≤ cl.latest.h - h.h   -- block numbers: no wrap in the subtraction
 
 /-- what a successful `VerifyPacketCommitment` / `VerifyPacketAcknowledgement` established -/
 def Verified (env : Env) (name : Bytes) (cl : Client) (now : UInt64) (h : Height) (proof path value : Bytes) : Prop :=
@@ -47,22 +47,22 @@ theorem verify_true {env : Env} {name : Bytes} {cl : Client} {now : UInt64} {h :
     simp only [Bool.and_eq_true, Bool.not_eq_true'] at hv
     obtain ⟨hl, hm⟩ := hv
     right
-    refine ⟨by rw [hk]; simp, hl, ?_⟩
+    refine ⟨by rw [hk]; simp, hl.1, ?_⟩
     split at hm
     · rename_i root hc
       simp only [Bool.and_eq_true, decide_eq_true_eq] at hm
-      exact ⟨root, hc, by simp only [DelayPassed, hk]; exact hm.1, by rw [hk]; exact hm.2⟩
+      exact ⟨root, hc, by simp only [DelayPassed, hk]; exact ⟨by simpa using hl.2, hm.1⟩, by rw [hk]; exact hm.2⟩
     · cases hm
   | eth =>
     rw [hk] at hv
     simp only [Bool.and_eq_true, Bool.not_eq_true'] at hv
     obtain ⟨hl, hm⟩ := hv
     right
-    refine ⟨by rw [hk]; simp, hl, ?_⟩
+    refine ⟨by rw [hk]; simp, hl.1, ?_⟩
     split at hm
     · rename_i root hc
       simp only [Bool.and_eq_true, decide_eq_true_eq] at hm
-      exact ⟨root, hc, by simp only [DelayPassed, hk]; exact hm.1, by rw [hk]; exact hm.2⟩
+      exact ⟨root, hc, by simp only [DelayPassed, hk]; exact ⟨by simpa using hl.2, hm.1⟩, by rw [hk]; exact hm.2⟩
     · cases hm
 
 /-- **recv_authentic**: an accepted receive decoded without error to a packet `p` for whose source chain a client
